@@ -161,7 +161,7 @@ Proof.
   destruct (Frames_oframes d m r F (S (length d)) (o_cap s) ltac:(lia) Hbd Hld H4 Hm)
     as (cap' & E & H1 & H2 & H3).
   exists {| o_data := r; o_cap := cap' |}. repeat split; cbn [o_data o_cap]; try lia; auto.
-  - unfold o_recv. rewrite Hus. fold d.
+  - unfold o_recv. rewrite Hus, take_min, drop_min. fold d.
     assert (o_cap s <? len (o_data s) + len (take room av) = false) as ->
       by (unfold room in *; lia).
     rewrite E. reflexivity.
